@@ -114,6 +114,23 @@ def run(pid, tier, seed):
             continue
         inputs.append((raw, t, [(o, d) for o, d in zip(objs, [b[1] for b in built])], "inferred"))
     drv.ask(tbl.hier())
+    hier_ok = drv.ask(("hierOk",))
+    chk.extra["class_table_hypotheses_hold"] = hier_ok
+    if hier_ok != "true":
+        chk.rel("corr.C07.hier", False, {"detail": "reflexivity/transitivity/base hypotheses fail on the fixture class table"})
+    # the formal trigger / normal-form predicates agree with the property's reading on every input
+    treqs, tmeta = [], []
+    for raw, py, objs, origin in inputs:
+        treqs.append(("normal", raw))
+        tmeta.append(("normal", raw, True))
+        for name in BASE:
+            if name == "noop":
+                continue
+            treqs.append(("trig", rws[name][1][0], raw))
+            tmeta.append((name, raw, types_gen.trigger(trig_name(name), raw)))
+    for g, (name, raw, expect) in zip(drv.ask_many(treqs), tmeta):
+        chk.rel("corr.C07.trigger" if name != "normal" else "corr.C07.normal", (g == "true") == expect,
+                {"what": name, "type": sexp.dumps(raw), "lean": g, "python": expect})
 
     reqs, meta = [], []
     for raw, py, objs, origin in inputs:
